@@ -267,6 +267,19 @@ func directedC03(c *ctx) {
 			}
 		}
 	}
+	// AllowDataURIImages: the library's own check of data: URLs (media type, base64 payload of any length)
+	{
+		ops := []*bmx.Op{{Kind: "AE", Names: []string{"img", "a"}}, {Kind: "AA", Names: []string{"src", "href"}, Scope: "G"}, {Kind: "US", Names: []string{"https"}}, {Kind: "DU"}}
+		pid, pol := c.policy(ops)
+		payloads := []string{"", "A", "AA", "AAA", "AAAA", "UklGRh4A", "UklGRh4AAABXRUJQ", "UklGRg==", "R0lGODlh", "R0lG", "iVBORw0KGgo=", "iVBORw0KGgoAAAAN", "/9j/", "/9j/4AAQ", "PHN2Zz4=", "PHN2", "====", "A===", "AB==", "ABC=", "AB=C",
+			"UklGRh4A\nAABXRUJQ", "UklGRh4A AABX", "!!!!", "UklGRh4AAABXRUJQVlA4"}
+		for _, mt := range []string{"image/webp", "image/png", "image/gif", "image/jpeg", "image/svg+xml", "image/bmp", "text/html", "IMAGE/PNG", "image/webp;charset=x"} {
+			for _, pl := range payloads {
+				c.san(pid, pol, []byte("<img src=\"data:"+mt+";base64,"+pl+"\">"))
+			}
+			c.san(pid, pol, []byte("<img src=\"data:"+mt+",plain\"><a href=\"data:"+mt+";base64,AAAA\">t</a><img src=\"data:"+mt+";base64,AAAA?q#f\">"))
+		}
+	}
 	// a scheme admitted by a scheme pattern, used, then given a custom check (the check must bind)
 	for v := 0; v < 4; v++ {
 		base := []*bmx.Op{{Kind: "AE", Names: []string{"a", "img", "q"}}, {Kind: "AA", Names: []string{"href", "src", "cite"}, Scope: "G"},
